@@ -228,25 +228,31 @@ def oracle_c12(c, ans):
     arr = arrivals(c)
     ts = {a[0]: a[1] for a in arr}
     bk = base_kind(c["kind"])
-    # 1. exact partition, in arrival order, per partition key (one partition if not partitioned)
-    keys = sorted(set(pkey(a[2]) for a in arr)) if c["kind"] in PARTITIONED else [None]
-    for k in keys:
-        sub = [a[0] for a in arr if k is None or pkey(a[2]) == k]
-        got = [x for w in wins if (k is None or w[2] == k) for x in w[3]]
+    # 1. exact partition, in arrival order
+    if c["kind"] not in PARTITIONED:
+        sub = [a[0] for a in arr]
+        got = [x for w in wins for x in w[3]]
         if fin is not None:
-            tail = [x for x in fin if x in set(sub)] if k is not None else fin
-            if got + tail != sub:
-                fails.append(("partition", "key %s: closed windows %s then still buffered %s is not the arrival sequence %s" % (
-                    k, [w[3] for w in wins if k is None or w[2] == k], tail, sub)))
-        else:
-            if got != sub[:len(got)]:
-                fails.append(("partition", "key %s: closed windows %s are not consecutive pieces of the arrival sequence %s" % (
-                    k, [w[3] for w in wins if k is None or w[2] == k], sub)))
-    if c["kind"] in PARTITIONED:
-        keyof = {a[0]: pkey(a[2]) for a in arr}
-        for w in wins:
-            if w[2] is not None and any(keyof.get(x) != w[2] for x in w[3]):
-                fails.append(("partition", "window %s of partition %s holds events of another key" % (w[3], w[2])))
+            if got + fin != sub:
+                fails.append(("partition", "closed windows %s then still buffered %s is not the arrival sequence %s" % ([w[3] for w in wins], fin, sub)))
+        elif got != sub[:len(got)]:
+            fails.append(("partition", "closed windows %s are not consecutive pieces of the arrival sequence %s" % ([w[3] for w in wins], sub)))
+    else:
+        # one window per partition: every arrival exactly once over all windows + buffers, each window in
+        # arrival order, and the windows of one partition in arrival order one after the other.
+        # (Which key goes to which partition is C04's business, not judged here.)
+        got = [x for w in wins for x in w[3]]
+        allids = got + (fin or [])
+        if len(set(allids)) != len(allids):
+            fails.append(("partition", "an event is emitted twice: closed windows %s, still buffered %s" % ([w[3] for w in wins], fin)))
+        if fin is not None and sorted(allids) != sorted(a[0] for a in arr):
+            fails.append(("partition", "closed windows %s plus still buffered %s are not exactly the arrivals %s" % ([w[3] for w in wins], fin, [a[0] for a in arr])))
+        if fin is None and not set(allids) <= set(a[0] for a in arr):
+            fails.append(("partition", "closed windows %s hold events that never arrived" % ([w[3] for w in wins],)))
+        for lab in sorted(set(w[2] for w in wins), key=str):
+            seq = [x for w in wins if w[2] == lab for x in w[3]]
+            if seq != sorted(seq):
+                fails.append(("partition", "partition %s: closed windows %s are not in arrival order" % (lab, [w[3] for w in wins if w[2] == lab])))
     # 2. count windows close with exactly their size
     if bk == "count" and c["a"] >= 1:
         for w in wins:
